@@ -168,6 +168,12 @@ def replay(beh, maxn=3, nx_every_step=True):
         why = compare_views(kind, G, st["exp"], maxn, nx=nx_every_step or k == len(h) - 1)
         if why:
             return False, "step%d:%s:%s" % (k, a, why)
+        if kind == "bipartite" and st["exp"]["m"] == st["exp"]["n"] * st["exp"]["r"]:
+            # the graph reached is complete: the class that stores no edges must show the same views
+            from cnfgen.graphs import CompleteBipartiteGraph
+            why = compare_views(kind, CompleteBipartiteGraph(st["exp"]["n"], st["exp"]["r"]), st["exp"], maxn)
+            if why:
+                return False, "step%d:CompleteBipartiteGraph:%s" % (k, why)
     return True, "ok"
 
 
